@@ -22,8 +22,12 @@ EXPLANATION = ("(R1) dimension-and-scale inference over both converters, the dat
                "only under the test of its own assumption (result >= transition SoC), the search only when gain(0) >= requested gain "
                "(else the -1 marker), the bisection of the decreasing gain moves the lower end on `gain(mid) > target` and the upper "
                "end otherwise, a fit is handed out only for a non-negative initial charge; the fit's helpers are unit-checked "
-               "interprocedurally from batt_cap_fn (parameter units inferred from the call arguments).")
-NOT_DECIDED = "that charging at full rate for the whole stay delivers exactly the requested energy with the two-stage fit (numeric)"
+               "interprocedurally from batt_cap_fn (parameter units inferred from the call arguments); the bisection stops only on "
+               "|gain(mid) - target| < tol and searches [ts - M T, 1]; (R7) the fit integrates the battery's own law: each piece of the SoC-gain "
+               "function satisfies ds/dT = M resp. M(1-s)/(1-ts) with its entry value and is selected by `start + M T <= ts`, and the "
+               "closed-form start solves ramp-gain(s*) = requested gain exactly - identities decided by computer algebra on the source.")
+NOT_DECIDED = ("convergence of the bisection within the recursion limit and its 1e-9 tolerance (numeric); monotonicity of the gain in the start "
+               "(analysis); that the battery built from the fit is charged with exactly the full-rate pilot by the caller")
 
 DOC_FIELDS = {"arrival": "connectionTime", "departure": "disconnectTime", "requested_energy": "kWhDelivered",
               "session_id": "sessionID", "station_id": "spaceID"}
@@ -370,6 +374,54 @@ def rule_fit_logic(ck, rid="C15.R6"):
                 ck.require(al == lo and ah in mid_forms, rid, b, e, ok="gain not above target: upper end moves to mid",
                            bad=f"gain(mid) <= target but the search continues on ({al}, {ah}): the upper end must move down to mid", sink="fit:bisect-below")
     ck.floor(rid, n_rec, 2, "recursive steps of the bisection")
+    # the stop: the midpoint is returned only when |gain(mid) - target| is below the tolerance
+    n_stop = 0
+    tgt = roles["target"]
+    for r in [n for n in bl.cfg.nodes if n.kind == "return" and n.expr is not None]:
+        e = r.expr
+        if isinstance(e, ast.Call) and call_name(e) == call_name(call):
+            continue
+        n_stop += 1
+        ev = canon(bl.expand(e, r))
+        ok_val = ev in mid_forms
+        ok_stop = False
+        for a, t in facts_at(bl, r):
+            c = cmp_norm(bl.expand(a, r), t)
+            if not c or c[1] not in ("<", "<="):
+                continue
+            l = c[0]
+            if isinstance(l, ast.Call) and call_name(l) in ("abs", "fabs") and len(l.args) == 1 and not isinstance(c[2], ast.Call):
+                d = linear(l.args[0], norm=canon)
+                keys = {k for k in d.t if d.t[k]}
+                if d.c == 0 and len(keys) == 2 and tgt in keys:
+                    other = next(k for k in keys if k != tgt)
+                    if other.startswith(roles["gain"] + "(") and other[len(roles["gain"]) + 1:-1] in mid_forms and d.t[other] == -d.t[tgt] and abs(d.t[tgt]) == 1:
+                        ok_stop = True
+        ck.require(ok_val and ok_stop, rid, b, r.stmt, ok="the midpoint is returned only when |gain(mid) - target| < tolerance",
+                   bad=f"the bisection returns `{ev[:40]}` without |gain(mid) - target| < tol being established on that path: the initial charge handed out "
+                       f"does not deliver the requested energy", sink="fit:bisect-stop")
+    ck.floor(rid, n_stop, 1, "stopping returns of the bisection")
+    # the interval searched: from the start below which the whole stay is in the constant-power region (start + M T = ts) up to a full battery
+    from .. import cas
+    S = cas.sp()
+    M_, T_, u_ = S.symbols("M T u", positive=True)
+    envb = {"max_dsoc": M_, "stay_dur": T_, "transition_soc": 1 - u_}
+    fl.keep = {"max_dsoc"}
+    try:
+        kept = [c_ for c_ in ast.walk(fl.expand(at.expr, at)) if isinstance(c_, ast.Call) and call_name(c_) == call_name(call)]
+        if len(kept) != 1:
+            raise AnalysisError("capacity fit: search call not found again under kept expansion")
+        bk = bind_args(kept[0], b, method=False)
+        lo_e, hi_e = bk[lo], bk[hi]
+        zl = cas.is_zero((1 - u_) - cas.to_sympy(lo_e, envb) - M_ * T_)
+        zh = cas.is_zero(cas.to_sympy(hi_e, envb) - 1)
+    finally:
+        fl.keep = set()
+    if zl is None or zh is None:
+        raise AnalysisError("capacity fit: search interval not decided by the algebra system")
+    ck.require(zl and zh, rid, g, call, ok="search interval [ts - M T, 1]: every start below it gains the same M T, the root lies inside",
+               bad=f"the bisection searches [{canon(lo_e)[:40]}, {canon(hi_e)[:20]}] instead of [transition_soc - max_dsoc * stay_dur, 1]: the largest feasible start can lie outside",
+               sink="fit:search-interval")
     # batt_cap_fn: hand out only a non-negative initial charge, and only capacities that can hold the request
     f = repo.fn("batt_cap_fn")
     ffl = flow_of(f)
@@ -389,7 +441,120 @@ def rule_fit_logic(ck, rid="C15.R6"):
                    bad="batt_cap_fn returns a (capacity, initial charge) pair without testing the initial charge against the -1 `no fit` marker", sink="fit:init-nonneg")
 
 
+def _returns_through(repo, fn, depth=0):
+    """[(return expression, facts)] of `fn`, looking through returns that merely call another repository function (arguments substituted)"""
+    from ..rules import _subst
+    fl = flow_of(fn)
+    out = []
+    for r in [n for n in fl.cfg.nodes if n.kind == "return" and n.expr is not None]:
+        e = fl.expand(r.expr, r)
+        facts = [(fl.expand(a, r), t) for a, t in facts_at(fl, r)]
+        cn = call_name(e) if isinstance(e, ast.Call) else None
+        tgt = [f for q, fs in repo.funcs.items() for f in fs if cn and q.split(".")[-1] == cn and f.module == fn.module]
+        if isinstance(e, ast.Call) and isinstance(e.func, ast.Name) and len(tgt) == 1 and depth < 3:
+            b = bind_args(e, tgt[0], method=False)
+            for e2, f2 in _returns_through(repo, tgt[0], depth + 1):
+                m = {k: v for k, v in b.items()}
+                import copy as _c
+                out.append((_subst(_c.deepcopy(e2), m), facts + [(_subst(_c.deepcopy(a), m), t) for a, t in f2]))
+        else:
+            out.append((e, facts))
+    return out
+
+
+def rule_fit_law(ck, rid="C15.R7"):
+    """the capacity fit integrates the same two-stage law as the battery it is fitted for (full rate M per period, nominal
+    breakpoint ts): the SoC-gain function's pieces, read as functions of the stay T, satisfy ds/dT = M below ts resp.
+    ds/dT = M (1 - s)/(1 - ts) from the moment ts is reached, with the right entry values; the piece is chosen by `s + M T <= ts`;
+    and the closed-form start s* is the exact solution of gain_ramp(s*) = requested gain.  Identities are decided by computer algebra
+    on the source expressions."""
+    from .. import cas
+    repo = ck.repo
+    S = cas.sp()
+    g = fn_by_last(repo, "_get_init_cap")
+    fl = flow_of(g)
+    M, T, dl = S.symbols("M T delta", positive=True)
+    u, w = S.symbols("u w", positive=True)
+    ts, g0 = 1 - u, 1 - w
+    # the gain function: the function-valued argument of the search call
+    gain_fn = None
+    for n in fl.cfg.nodes:
+        for e in fl.cfg.node_exprs(n):
+            for c in [x for x in ast.walk(e) if isinstance(x, ast.Call)]:
+                for a in c.args:
+                    if isinstance(a, ast.Name) and any(q.split(".")[-1] == a.id and f.module == g.module for q, fs in repo.funcs.items() for f in fs):
+                        gain_fn = fn_by_last(repo, a.id)
+    if gain_fn is None:
+        raise AnalysisError("capacity fit: SoC-gain function (the function handed to the search) not found")
+    guess = gain_fn.params[0]
+    env = {"max_dsoc": M, "stay_dur": T, "transition_soc": ts, guess: g0}
+    inner_h = ts - g0 - M * T
+    n_p = 0
+    for e, facts in _returns_through(repo, gain_fn):
+        try:
+            F = cas.to_sympy(e, env) + g0
+        except AnalysisError as ex:
+            raise AnalysisError(f"capacity fit: gain piece `{canon(e)[:50]}`: {ex}")
+        sel = None
+        for a, t in facts:
+            c = cmp_norm(a, t)
+            if not c or c[1] not in ("<", "<="):
+                continue
+            try:
+                gt = cas.compare_term(c, env)
+            except AnalysisError:
+                continue
+            sg = cas.ratio_sign(gt, inner_h) if gt is not None else None
+            if sg is not None:
+                sel = sg
+        n_p += 1
+        if sel == 1:
+            ok = [cas.is_zero(F.subs(T, 0) - g0), cas.is_zero(S.diff(F, T) - M)]
+            kind, what = "constant-power", "gain = M T (the whole stay below the breakpoint)"
+        elif sel == -1:
+            T1 = (ts - g0) / M
+            ok = [cas.is_zero(F.subs(T, T1) - ts), cas.is_zero(S.diff(F, T) - M * (1 - F) / (1 - ts))]
+            kind, what = "crossing", "s = ts when the breakpoint is reached and ds/dT = M (1 - s)/(1 - ts) afterwards"
+        else:
+            ck.violation(rid, gain_fn, e, f"the gain piece `{canon(e)[:60]}` is not selected by the predicate `start + M T <= ts` of the law", sink="fitlaw:selection")
+            continue
+        if any(o is None for o in ok):
+            raise AnalysisError(f"capacity fit: identity for the {kind} gain piece not decided by the algebra system")
+        ck.require(all(ok), rid, gain_fn, e, ok=f"{kind} piece: {what}", bad=f"the {kind} piece of the SoC-gain function `{canon(e)[:70]}` is not the solution of the "
+                   f"two-stage law the battery charges by ({'entry value' if not ok[0] else 'differential equation'} fails): the fitted initial charge does not deliver the request",
+                   sink=f"fitlaw:{kind}")
+    ck.floor(rid, n_p, 2, "pieces of the SoC-gain function")
+    # closed-form start: s* with ramp-gain(s*) = requested gain, where ramp(T; s) solves ds/dT = M (1 - s)/(1 - ts), s(0) = s
+    s_ = S.Symbol("s")
+    R = 1 + (s_ - 1) * S.exp(-M * T / (1 - ts))
+    assert cas.is_zero(S.diff(R, T) - M * (1 - R) / (1 - ts)) and cas.is_zero(R.subs(T, 0) - s_)
+    env2 = {"max_dsoc": M, "stay_dur": T, "transition_soc": ts, "delta_soc": dl}
+    fl.keep = {"max_dsoc", "delta_soc"}
+    n_c = 0
+    try:
+        for r in [n for n in fl.cfg.nodes if n.kind == "return" and n.expr is not None]:
+            e = fl.expand(r.expr, r)
+            if not (isinstance(e, ast.BinOp) and isinstance(e.op, ast.Mult) and "exp(" in canon(e)):
+                continue
+            soc = e.left if canon(e.right) == "battery_cap" else e.right if canon(e.left) == "battery_cap" else None
+            if soc is None or isinstance(soc, ast.Call):
+                continue
+            n_c += 1
+            sx = cas.to_sympy(soc, env2)
+            z = cas.is_zero(R.subs(s_, sx) - sx - dl)
+            if z is None:
+                raise AnalysisError("capacity fit: identity for the closed-form start not decided by the algebra system")
+            ck.require(z, rid, g, r.stmt, ok="the closed-form start s* satisfies ramp-gain(s*) = requested gain exactly",
+                       bad=f"the closed-form initial SoC `{canon(soc)[:70]}` is not the solution of gain(s) = requested gain for a session that stays in the ramp-down region",
+                       sink="fitlaw:closed-form")
+    finally:
+        fl.keep = set()
+    ck.floor(rid, n_c, 1, "closed-form start of the capacity fit")
+    # max_dsoc / delta_soc are what the law takes them for: full rate in SoC per period, requested energy in SoC (units: C15.R1)
+
+
 def run(ck):
+    rule_fit_law(ck)
     rule_fit_logic(ck)
     rule_units(ck)
     rule_acndata(ck)
